@@ -149,7 +149,21 @@ def check_union_typevar(ctx):
     def leaves_of(e):
         return leaves_of(e.body) + leaves_of(e.orelse) if isinstance(e, ast.IfExp) else [e]
 
-    comps = [n for n in ast.walk(f.node) if isinstance(n, (ast.ListComp, ast.GeneratorExp)) and len(n.generators) == 1 and norm(n.generators[0].iter) == "get_args(array_type)"]
+    def members_iter(e) -> bool:
+        """`get_args(array_type)`, or a local bound only to that / to a one-element tuple or list of the array type itself (the non-union case
+        run through the same code)"""
+        if norm(e) == "get_args(array_type)":
+            return True
+        if isinstance(e, ast.Name) and e.id not in f.params:
+            from . import c05 as _c05
+
+            ds = _c05._assignments_to(f, e.id)
+            ok_ = lambda v: v is not None and (norm(v) == "get_args(array_type)" or (isinstance(v, (ast.Tuple, ast.List)) and len(v.elts) == 1 and norm(v.elts[0]) == "array_type")
+                                               or (isinstance(v, ast.IfExp) and ok_(v.body) and ok_(v.orelse)))
+            return bool(ds) and all(d[2] is None and ok_(d[1]) for d in ds) and any("get_args(array_type)" in norm(d[1]) for d in ds)
+        return False
+
+    comps = [n for n in ast.walk(f.node) if isinstance(n, (ast.ListComp, ast.GeneratorExp)) and len(n.generators) == 1 and members_iter(n.generators[0].iter)]
     if not comps:
         comps = [n for n in ast.walk(f.node) if isinstance(n, ast.ListComp) and isinstance(n.elt, ast.Call) and norm(n.elt.func) == "_make_array"]
     need(len(comps) == 1, "C15.2: union comprehension not found")
@@ -159,7 +173,7 @@ def check_union_typevar(ctx):
     lvs = leaves_of(lc.elt)
     made = [e for e in lvs if isinstance(e, ast.Call) and norm(e.func) == "_make_array"]
     raw = [e for e in lvs if e not in made]
-    if norm(lc.generators[0].iter) != "get_args(array_type)" or lc.generators[0].ifs:
+    if not members_iter(lc.generators[0].iter) or lc.generators[0].ifs:
         ctx.bad("C15.2", f, lc, f"union members are not each built as _make_array(member, dim_str, cls): `{norm(lc)}`")
     elif raw:
         ctx.bad("C15.2", f, lc, f"some union members are not built as _make_array(member, dim_str, cls) but passed on as `{norm(raw[0])}` (under `{norm(lc.elt.test) if isinstance(lc.elt, ast.IfExp) else '?'}`): "
@@ -184,13 +198,23 @@ def check_union_typevar(ctx):
             made_vars.add(a.targets[0].id)
     if filt and not made_vars:
         raise AnalysisError("C15.2: the members of a union that could be made are not kept in a variable the rule can follow")
+    # `n = len(out)` ... `if n == 0:`: a count kept in a local
+    len_vars = {}
+    for a in ast.walk(f.node):
+        if isinstance(a, ast.Assign) and len(a.targets) == 1 and isinstance(a.targets[0], ast.Name) and isinstance(a.value, ast.Call) and norm(a.value.func) == "len" \
+                and a.value.args and isinstance(a.value.args[0], ast.Name) and a.value.args[0].id in made_vars:
+            len_vars[a.targets[0].id] = a.value.args[0].id
+
     def is_empty_test(t):
         for v_ in made_vars:
             if norm(t) in (f"len({v_}) == 0", f"not {v_}", f"{v_} == ()", f"len({v_}) < 1"):
                 return True
+        for n_ in len_vars:
+            if norm(t) in (f"{n_} == 0", f"not {n_}", f"{n_} < 1"):
+                return True
         return False
     zero = [st for st in ast.walk(f.node) if isinstance(st, ast.If) and is_empty_test(st.test) and any(isinstance(x, ast.Raise) for x in st.body)]
-    zero += [st for st in ast.walk(f.node) if isinstance(st, ast.If) and any(norm(st.test) in (f"len({v_}) != 0", f"len({v_}) > 0", v_) for v_ in made_vars)
+    zero += [st for st in ast.walk(f.node) if isinstance(st, ast.If) and (any(norm(st.test) in (f"len({v_}) != 0", f"len({v_}) > 0", v_) for v_ in made_vars) or any(norm(st.test) in (f"{n_} != 0", f"{n_} > 0", n_) for n_ in len_vars))
              and any(isinstance(x, ast.Raise) for x in st.orelse)]
     if not zero:
         ctx.bad("C15.2", f, f.node, "a union none of whose members can be made is not a ValueError", construct="empty union ValueError")
